@@ -303,6 +303,7 @@ namespace Givaro {
     template <class Domain> template<class RandomIterator>
     inline typename Poly1Dom<Domain,Dense>::Rep& Poly1Dom<Domain,Dense>::random(RandomIterator& g, typename Poly1Dom<Domain,Dense>::Rep& r, Degree d) const
     {
+        if (d < 0) d = 0; // size 0 / Degree() : same as the unsized overload (r[(size_t)-1] was written otherwise)
         r.resize((size_t)d.value()+1);
         _domain.nonzerorandom(g, r[(size_t)d.value()]);
         for (int i=(int)d.value(); i--;)
